@@ -1,12 +1,16 @@
 #!/bin/sh
-# usage: tools/eval_seeded.sh <property id> <patch file> [tier]   -- applies the patch to /repo, runs the check, restores /repo
+# usage: tools/eval_seeded.sh <property id> <patch file (absolute)> [tier]
+# applies the patch to /repo, runs the check, restores /repo AND the evidence file of the clean tree
 P=$1; PATCH=$2; TIER=${3:-quick}
 cd /repo || exit 2
 git diff --quiet || { echo "/repo not clean"; exit 2; }
 git apply "$PATCH" || { echo "patch does not apply"; exit 2; }
 cd /verif
-timeout 3000 ./check $P --tier $TIER > /tmp/seeded_$P.log 2>&1
+cp evidence/$P.json /tmp/evidence_$P.bak 2>/dev/null
+timeout 900 ./check $P --tier $TIER > /tmp/seeded_$P.log 2>&1
 rc=$?
 git -C /repo checkout -- .
+cp /tmp/evidence_$P.bak evidence/$P.json 2>/dev/null
+rm -f replays/$P-*.json
 echo "$P rc=$rc $(grep -c '^VIOLATION' /tmp/seeded_$P.log) violation lines; $(tail -1 /tmp/seeded_$P.log | cut -c1-160)"
 grep "^  key=" /tmp/seeded_$P.log | sed 's/^  key=//' | cut -c1-200 | sort | uniq -c | sort -rn | head -3
